@@ -44,6 +44,19 @@ fn run_case(t: &mut Tape, c: &mut Case, huge: bool) -> Result<(), String> {
         }
         c.exclude("unknown_size_disabled_in_raw_tag_variant");
     }
+    // probe: an element whose size equals the all-ones value of an explicitly requested width (127 in 1 byte, 16383 in 2):
+    // the writer must either reject it (then it is not part of the accepted sequence) or emit something that reads back
+    let mut probe = false;
+    if t.chance(1, 3) {
+        probe = insert_probe(t, &mut d);
+        if probe {
+            let cl = sanitize_unknown(d.spec.table(), &mut d.forest, true);
+            d.cleared.0 += cl.0;
+            d.cleared.1 += cl.1;
+            fix_widths(&mut d.forest);
+        }
+    }
+    c.label_if(probe, "reserved_width_probe");
     doc_labels(c, &d);
     let special = ["boundary_len", "explicit_width", "unknown_size", "has_full", "neg_int", "float", "raw_tags"];
     c.nontrivial = has_nested_master(&d.forest) && c.labels.iter().any(|l| special.contains(l));
@@ -51,25 +64,107 @@ fn run_case(t: &mut Tape, c: &mut Case, huge: bool) -> Result<(), String> {
     c.sample_with(|| describe_doc(&d));
 
     let ops = forest_ops(&d.forest);
-    let want = flatten(&d.forest);
     let cfg = ReadCfg { tolerate: tol, ..ReadCfg::default() };
     with_spec!(d.spec, T => {
-        let bytes = write_ops::<T>(&ops).map_err(|(k, e)| format!("writer rejected call #{} {} of a conformant sequence: {:?}\n  ops: {}", k, ops.get(k).map(|o| o.short()).unwrap_or("flush".into()), e, render_ops(&ops)))?;
+        let mut w = Wr::<T>::new(RecDest::new());
+        let mut rejected_probe = false;
+        for (k, op) in ops.iter().enumerate() {
+            let is_probe = matches!(op, WOp::Write(Flat::Leaf(_, p), WOpt::Width(wd)) if payload_len(p) == (1usize << (7 * *wd as usize)) - 1);
+            match w.apply(op) {
+                Ok(()) => {}
+                Err(WErr::TagSize(_)) if is_probe => rejected_probe = true,
+                Err(e) => return Err(format!("writer rejected call #{} {} of a conformant sequence: {:?}\n  ops: {}", k, op.short(), e, render_ops(&ops))),
+            }
+        }
+        let bytes = w.finish().map_err(|e| format!("flush failed: {:?}\n  ops: {}", e, render_ops(&ops)))?;
         c.checks += ops.len() as u64;
+        c.label_if(probe && rejected_probe, "probe_rejected_by_writer");
+        c.label_if(probe && !rejected_probe, "probe_accepted_by_writer");
+        let mut expected_forest = d.forest.clone();
+        if rejected_probe {
+            remove_marked(&mut expected_forest);
+        }
+        let want = flatten(&expected_forest);
         let obs = read_all::<T>(&bytes, &cfg);
         c.checks += want.len() as u64;
         expect_exact(&obs, &want, "reading back the writer's output").map_err(|m| format!("{}\n  ops: {}\n  bytes({}): {}", m, render_ops(&ops), bytes.len(), short_bytes(&bytes)))
     })
 }
 
+fn payload_len(p: &Payload) -> usize {
+    match p {
+        Payload::S(s) => s.len(),
+        Payload::B(b) | Payload::Raw(b) => b.len(),
+        _ => usize::MAX,
+    }
+}
+
+fn remove_marked(f: &mut Vec<Node>) {
+    f.retain(|n| !n.enc.mark);
+    for n in f.iter_mut() {
+        if let Some(ch) = n.children_mut() {
+            remove_marked(ch);
+        }
+    }
+}
+
+/// insert a string/binary leaf of length 2^(7w)-1 with explicit width w under a master where the spec allows one
+fn insert_probe(t: &mut Tape, d: &mut Doc) -> bool {
+    let spec = d.spec.table().clone();
+    // collect paths (index lists) of masters that are not handed over as Full (nor inside one)
+    fn rec(n: &Node, chain: &mut Vec<u64>, path: &mut Vec<usize>, out: &mut Vec<(Vec<usize>, Vec<u64>)>) {
+        if !n.is_master() || n.enc.full {
+            return;
+        }
+        chain.push(n.id);
+        out.push((path.clone(), chain.clone()));
+        for (i, c) in n.children().iter().enumerate() {
+            path.push(i);
+            rec(c, chain, path, out);
+            path.pop();
+        }
+        chain.pop();
+    }
+    let mut sites = Vec::new();
+    for (i, n) in d.forest.iter().enumerate() {
+        rec(n, &mut Vec::new(), &mut vec![i], &mut sites);
+    }
+    let usable: Vec<(Vec<usize>, Vec<u64>, Vec<(u64, Ty)>)> = sites
+        .into_iter()
+        .map(|(p, ch)| {
+            let cands: Vec<(u64, Ty)> = spec.elems.iter().filter(|e| matches!(e.ty, Ty::S | Ty::B) && crate::refmodel::ref_match(&e.path, &ch)).map(|e| (e.id, e.ty)).collect();
+            (p, ch, cands)
+        })
+        .filter(|x| !x.2.is_empty())
+        .collect();
+    if usable.is_empty() {
+        return false;
+    }
+    let (path, _, cands) = &usable[t.below(usable.len())];
+    let (id, ty) = cands[t.below(cands.len())];
+    let (w, len) = if t.chance(1, 4) { (2u8, 16383usize) } else { (1u8, 127usize) };
+    let payload = if ty == Ty::S { Payload::S(gen_string(t, len)) } else { Payload::B(gen_binary(t, len)) };
+    let mut node = Node::leaf(id, payload);
+    node.enc.size_w = w;
+    node.enc.mark = true;
+    let mut cur: &mut Node = &mut d.forest[path[0]];
+    for &i in &path[1..] {
+        cur = &mut cur.children_mut().unwrap()[i];
+    }
+    let ch = cur.children_mut().unwrap();
+    let at = t.below(ch.len() + 1);
+    ch.insert(at, node);
+    true
+}
+
 pub const STAGES: &[Stage] = &[Stage { name: "roundtrip", f: stage_main }, Stage { name: "roundtrip_huge", f: stage_huge }];
 
 pub fn run(rc: &mut RunCtx) {
-    rc.run_pt(STAGES[0], rc.pick(40_000, 1_500_000), (96, 640));
+    rc.run_pt(STAGES[0], rc.pick(160_000, 3_000_000), (96, 640));
     if !rc.quick() {
         rc.run_pt(STAGES[1], 1_500, (96, 400));
     }
-    for l in ["unknown_size", "boundary_len", "explicit_width", "has_full", "raw_tags", "spec_macro_derived", "depth3plus", "global_element"] {
+    for l in ["unknown_size", "boundary_len", "explicit_width", "has_full", "raw_tags", "spec_macro_derived", "depth3plus", "global_element", "reserved_width_probe"] {
         rc.require_label("roundtrip", l, 10_000);
     }
     rc.require_label("roundtrip", "unknown_nested", 5_000);
